@@ -313,3 +313,38 @@ def inline_single_exit_helpers(idx, module, func_node, only=None, depth=2):
     fn.body = norm(fn.body, module, depth)
     ast.fix_missing_locations(fn)
     return fn
+
+
+def push_returns(func_node):
+    """Single-exit form -> early returns:  `if c1: ...; r = e1  elif c2: ...; r = e2  else: ...; r = e3` followed by `return r` (r a local that is
+    only assigned as the LAST statement of every leaf of the chain and read nowhere else) becomes the chain with `return e_k` in its leaves.
+    Both forms compute the same; rules that read `return data, code` per case then see one shape.  Returns a deep copy."""
+    fn = copy.deepcopy(func_node)
+    body = fn.body
+    if len(body) < 2 or not isinstance(body[-1], ast.Return) or not isinstance(body[-1].value, ast.Name) or not isinstance(body[-2], ast.If):
+        return fn
+    r = body[-1].value.id
+    loads = [n for n in ast.walk(fn) if isinstance(n, ast.Name) and n.id == r and isinstance(n.ctx, ast.Load)]
+    if len(loads) != 1:
+        return fn
+
+    def leaves(iff):
+        out = [iff.body]
+        if len(iff.orelse) == 1 and isinstance(iff.orelse[0], ast.If):
+            out += leaves(iff.orelse[0])
+        elif iff.orelse:
+            out.append(iff.orelse)
+        else:
+            out.append(None)
+        return out
+    ls = leaves(body[-2])
+    if any(l is None or not l or not (isinstance(l[-1], ast.Assign) and len(l[-1].targets) == 1 and isinstance(l[-1].targets[0], ast.Name) and l[-1].targets[0].id == r) for l in ls):
+        return fn
+    stores = [n for n in ast.walk(fn) if isinstance(n, ast.Name) and n.id == r and isinstance(n.ctx, ast.Store)]
+    if len(stores) != len(ls) + sum(1 for st in body[:-2] if isinstance(st, ast.Assign) and any(isinstance(t, ast.Name) and t.id == r for t in st.targets)):
+        return fn
+    for l in ls:
+        l[-1] = ast.copy_location(ast.Return(value=l[-1].value), l[-1])
+    fn.body = body[:-1]
+    ast.fix_missing_locations(fn)
+    return fn
